@@ -83,7 +83,7 @@ func TestBifurcation(t *testing.T) {
 					}
 					return nil, errors.New("scripted getter failure")
 				}
-				if via != "head" { // (a Head() request is capped by NetworkHeadRequestTimeout: there the request budget bounds a runaway search)
+				if via != "head" && via != "head2" { // (a Head() request is capped by NetworkHeadRequestTimeout: there the request budget bounds a runaway search)
 					time.Sleep(time.Second) // virtual: a search that never ends runs into the caller's deadline
 				}
 				if badMid != 0 && int(c.H) == subj+badMid {
@@ -114,13 +114,17 @@ func TestBifurcation(t *testing.T) {
 				cand = forge(chain, uint64(subj+d), 1)
 			}
 			done := make(chan error, 1)
-			if via == "head" {
+			gate2 := make(chan struct{})
+			if via == "head" || via == "head2" {
 				time.Sleep(4 * time.Hour) // the subjective head is no longer recent (recency = 3 x blockTime) (not expired): Head() asks the network
 				synctest.Wait()
 				n.get.resetLog()
 				n.get.headFn = func(_ gcall, trusted *vh.Header) (*vh.Header, error) {
 					if trusted == nil {
 						return nil, errors.New("unexpected untrusted head request")
+					}
+					if via == "head2" {
+						<-gate2 // until the second caller has joined the in-flight request
 					}
 					if err := header.Verify(trusted, cand); err != nil {
 						var ve *header.VerifyError
@@ -141,7 +145,7 @@ func TestBifurcation(t *testing.T) {
 				}()
 				ctx, cancel := context.WithTimeout(bg, time.Hour)
 				defer cancel()
-				if via == "head" {
+				if via == "head" || via == "head2" {
 					hd, err := n.sy.Head(ctx)
 					if err == nil && (hd == nil || hd.Hash().String() != cand.Hash().String()) {
 						err = errors.New("Head() did not adopt the candidate")
@@ -151,6 +155,17 @@ func TestBifurcation(t *testing.T) {
 				}
 				done <- n.sub.deliver(ctx, cand)
 			}()
+			if via == "head2" {
+				// a second caller shares the request of the first one: it must come to the same verdict
+				synctest.Wait()
+				go func() {
+					ctx, cancel := context.WithTimeout(bg, time.Hour)
+					defer cancel()
+					_, _ = n.sy.Head(ctx)
+				}()
+				synctest.Wait()
+				close(gate2)
+			}
 			synctest.Wait()
 			var err error
 			finished := false
@@ -189,6 +204,13 @@ func TestBifurcation(t *testing.T) {
 			for _, gc := range n.get.callsOf("GetByHeight") {
 				rec.Obs.Calls = append(rec.Obs.Calls, int(gc.H)-subj)
 			}
+			if via == "head2" {
+				// two searches ran one after the other: their request and promotion logs are not compared, only the verdicts
+				rec.Obs.Calls = []int{}
+				pmu.Lock()
+				rec.Obs.Prom = nil
+				pmu.Unlock()
+			}
 			// the candidate's own promotion (after acceptance) is not an intermediate
 			pmu.Lock()
 			var prom []int
@@ -215,7 +237,11 @@ func TestBifurcation(t *testing.T) {
 		tw.Put(rec)
 		res := mbt.Result{ID: id, Key: mbt.J(in), NonTriv: len(rec.Obs.Calls) > 0, Verdict: "ok"}
 		want := mbt.Map(c, "predicted")
-		if rec.Obs.Res != mbt.Str(want, "res") || mbt.J(rec.Obs.Calls) != mbt.J(mbt.Ints(want["calls"])) || mbt.J(rec.Obs.Prom) != mbt.J(mbt.Ints(want["prom"])) {
+		if via == "head2" {
+			if rec.Obs.Res != mbt.Str(want, "res") {
+				res.Verdict, res.Detail = "drift", fmt.Sprintf("in=%s observed %s, model %s", mbt.J(in), mbt.J(rec.Obs), mbt.J(want))
+			}
+		} else if rec.Obs.Res != mbt.Str(want, "res") || mbt.J(rec.Obs.Calls) != mbt.J(mbt.Ints(want["calls"])) || mbt.J(rec.Obs.Prom) != mbt.J(mbt.Ints(want["prom"])) {
 			res.Verdict, res.Detail = "drift", fmt.Sprintf("in=%s observed %s, model %s", mbt.J(in), mbt.J(rec.Obs), mbt.J(want))
 		}
 		rw.Put(res)
